@@ -459,6 +459,42 @@ fn oracle_c18(out: &mut Out, line: usize, g: &Grid, oc: &Outcome, with_general: 
     }
 }
 
+/// the convenience entry points answer what `SudokuSolver::new(g).solve()` answers:
+/// `solve_sudoku(g)`, `solve_sudoku_string(s)` with `s` the 81-character spelling of `g` (both
+/// spellings of an empty cell), `parse_string(s) == g`, `original_puzzle() == g`, `clue_count()`
+fn entry_points_agree(out: &mut Out, line: usize, g: &Grid, oc: &Outcome) {
+    use selen::solvers::sudoku::{solve_sudoku, solve_sudoku_string};
+    let Outcome::Done(_, _, want) = oc else { return };
+    if g.iter().flatten().any(|v| !(0..=9).contains(v)) {
+        return;
+    }
+    let r = with_budget(|| guarded(|| solve_sudoku(*g)));
+    match r {
+        None => out.fail(line, "C18", "-", "solve_sudoku panicked where SudokuSolver::solve did not"),
+        Some(got) if got != *want => out.fail(line, "C18", "-", format!("solve_sudoku answers {:?} but SudokuSolver::solve {:?}", got.map(|s| grid_arg(&s)), want.map(|s| grid_arg(&s)))),
+        _ => {}
+    }
+    for dot in [false, true] {
+        let text: String = g.iter().flatten().map(|v| if *v == 0 && dot { '.' } else { char::from_digit(*v as u32, 10).unwrap() }).collect();
+        match guarded(|| SudokuSolver::parse_string(&text)) {
+            Some(Ok(p)) if p == *g => {}
+            other => out.fail(line, "C18", "-", format!("parse_string does not give back the grid: {:?}", other.map(|r| r.map(|p| grid_arg(&p))))),
+        }
+        let r = with_budget(|| guarded(|| solve_sudoku_string(&text)));
+        match r {
+            None => out.fail(line, "C18", "-", "solve_sudoku_string panicked where SudokuSolver::solve did not"),
+            Some(got) if got != *want => out.fail(line, "C18", "-", format!("solve_sudoku_string answers {:?} but SudokuSolver::solve {:?}", got.map(|s| grid_arg(&s)), want.map(|s| grid_arg(&s)))),
+            _ => {}
+        }
+    }
+    let meta = guarded(|| { let s = SudokuSolver::new(*g); (s.original_puzzle(), s.clue_count()) });
+    match meta {
+        Some((p, n)) if p == *g && n == g.iter().flatten().filter(|v| **v != 0).count() => {}
+        other => out.fail(line, "C18", "-", format!("original_puzzle / clue_count disagree with the grid: {:?}", other.map(|(p, n)| (grid_arg(&p), n)))),
+    }
+    out.stat("entry-points-compared");
+}
+
 /// all ops for one clue grid
 fn run_case(out: &mut Out, rng: &mut Rng, g: &Grid, full: bool) -> &'static str {
     if full || rng.chance(1, 3) {
@@ -472,6 +508,9 @@ fn run_case(out: &mut Out, rng: &mut Rng, g: &Grid, full: bool) -> &'static str 
     emit_solve(out, g, &oc);
     let line = emit_result(out, g, &oc);
     let label = oracle_c18(out, line, g, &oc, full || rng.chance(1, 2));
+    if full || rng.chance(1, 2) {
+        entry_points_agree(out, line, g, &oc);
+    }
     if let Outcome::Done(evs, _, res) = &oc {
         out.stat_n("posted-singles", evs.iter().filter(|e| e.0 <= 3).count() as u64);
         out.stat_n("pair-removals", evs.iter().filter(|e| e.0 > 3).count() as u64);
